@@ -13,7 +13,12 @@ Property theorems only; helper lemmas live in `IwModel/Lemmas/Kv.lean`.
   database leave the others alone, effective keys unpack to what the caller passed;
 * the bridge to C19 (§5): the comparator the store uses (`KvApi.gtE flags`) IS a strict total order on
   the effective keys a database can hold, in every key mode, so the refinement theorems hold for
-  it with no comparator hypothesis left (`store_refines_map` and its per-mode corollaries). -/
+  it with no comparator hypothesis left (`store_refines_map` and its per-mode corollaries);
+* §6, the property as written: the whole `KvApi.Store` — several databases of any modes, put with
+  no-overwrite / increment / put handler, get, get-into-buffer, delete, metadata, database creation and
+  destruction — against the reference map `KvApiSpec.SpecStore`, call by call and for every history
+  (`api_history_refines`, no hypothesis), with "errors change nothing" and "databases are independent"
+  as corollaries read off the reference. -/
 namespace IwModel.C01
 open IwModel Kv
 
@@ -537,6 +542,201 @@ theorem api_destroydb_refines (s : Store) (inv : StoreInv s) (id : Nat) :
     refine ⟨trivial, by simp [absStore, List.filter_map, Function.comp_def], ?_⟩
     intro x hx
     exact inv x (List.mem_filter.1 hx).1
+
+/-- one call of the API, whichever: same line, same resulting contents, invariant kept -/
+theorem api_step_refines (s : Store) (inv : StoreInv s) (op : ApiOp) :
+    (stepApi s op).2 = (stepSpecApi (absStore s) op).2 ∧
+    absStore (stepApi s op).1 = (stepSpecApi (absStore s) op).1 ∧ StoreInv (stepApi s op).1 := by
+  cases op with
+  | put id key comp val fl lvl ph => exact api_put_refines s inv id key comp val fl lvl ph
+  | get id key comp => exact ⟨api_get_refines s inv id key comp, rfl, inv⟩
+  | getCopy id key comp bufsz => exact ⟨api_getcopy_refines s inv id key comp bufsz, rfl, inv⟩
+  | del id key comp => exact api_del_refines s inv id key comp
+  | metaSet id m => exact (api_meta_refines s inv id m 0 0).1
+  | metaGet id bufsz known => exact ⟨(api_meta_refines s inv id [] bufsz known).2, rfl, inv⟩
+  | openDb id flags => exact api_opendb_refines s inv id flags
+  | destroyDb id => exact api_destroydb_refines s inv id
+  | reopen ro => exact ⟨rfl, rfl, inv⟩
+
+/-- histories from any store satisfying the invariant, whatever cursors are open -/
+theorem api_history_refines_from (ops : List ApiOp) (s : Store) (inv : StoreInv s) :
+    (runApi s ops).2 = (runSpecApi (absStore s) ops).2 ∧
+    absStore (runApi s ops).1 = (runSpecApi (absStore s) ops).1 ∧ StoreInv (runApi s ops).1 := by
+  induction ops generalizing s with
+  | nil => exact ⟨rfl, rfl, inv⟩
+  | cons op ops ih =>
+    have hs := api_step_refines s inv op
+    have := ih (stepApi s op).1 hs.2.2
+    simp only [runApi, runSpecApi]
+    rw [← hs.2.1, ← hs.1]
+    exact ⟨by rw [this.1], this.2.1, this.2.2⟩
+
+/-- **C01 as written.** Every history of put (plain, no-overwrite, increment, with an accepting or a
+    refusing put handler), get, get-into-buffer, delete, metadata set/get, database creation and
+    destruction and re-opening read-only or writable — over any number of databases of any key modes
+    (the flags word of each `openDb` is arbitrary), with arbitrary keys, values and level draws —
+    started from the empty store: the node-level model prints, call by call, exactly the lines of
+    the ordered reference map, and ends holding exactly the reference's contents (every database:
+    same id, flags, metadata and the same sorted records). No hypothesis. -/
+theorem api_history_refines (ops : List ApiOp) :
+    (runApi Store.empty ops).2 = (runSpecApi SpecStore.empty ops).2 ∧
+    absStore (runApi Store.empty ops).1 = (runSpecApi SpecStore.empty ops).1 :=
+  have h := api_history_refines_from ops Store.empty storeInv_empty
+  ⟨h.1, h.2.1⟩
+
+/-- the reference itself stays well formed along every history: each database's list is strictly
+    descending under the comparator of its flags and holds valid effective keys only (so lookup in
+    it is membership, `spec_get_iff_mem`/`store_map_laws`) -/
+theorem api_history_spec_sorted (ops : List ApiOp) : SpecInv (runSpecApi SpecStore.empty ops).1 := by
+  have h := api_history_refines_from ops Store.empty storeInv_empty
+  have e : absStore Store.empty = SpecStore.empty := rfl
+  rw [e] at h
+  rw [← h.2.1]
+  exact specInv_abs h.2.2
+
+/-! #### corollaries, read off the reference -/
+
+/-- on the reference: a call whose line does not begin with `<op> ok` returns the store it got -/
+theorem spec_error_preserves (t : SpecStore) (op : ApiOp) (h : ¬ lineOk op (stepSpecApi t op).2) :
+    (stepSpecApi t op).1 = t := by
+  cases op with
+  | put id key comp val fl lvl ph =>
+    have e : "put ok".length = 6 := by decide
+    simp only [stepSpecApi, sput, lineOk, ApiOp.okWord, e] at h ⊢
+    rcases sputR_cases t id key comp val fl ph with h1 | ⟨d, _, h2⟩
+    · exact h1.1
+    · exact absurd ((putLine_ok_iff ph _).2 h2) h
+  | get id key comp => rfl
+  | getCopy id key comp bufsz => rfl
+  | del id key comp =>
+    rcases sdel_cases t id key comp with h1 | ⟨d, _, h2⟩
+    · exact h1
+    · exact absurd (by simp only [stepSpecApi, h2, lineOk, ApiOp.okWord]; decide) h
+  | metaSet id m =>
+    rcases smetaSet_cases t id m with h1 | ⟨d, _, h2⟩
+    · exact h1
+    · exact absurd (by simp only [stepSpecApi, h2, lineOk, ApiOp.okWord]; decide) h
+  | metaGet id bufsz known => rfl
+  | openDb id flags =>
+    rcases sopenDb_cases t id flags with h1 | ⟨_, h2⟩
+    · exact h1
+    · exact absurd (by simp only [stepSpecApi, h2, lineOk, ApiOp.okWord]; decide) h
+  | destroyDb id =>
+    rcases sdestroyDb_cases t id with h1 | ⟨_, h2⟩
+    · exact h1
+    · exact absurd (by simp only [stepSpecApi, h2, lineOk, ApiOp.okWord]; decide) h
+  | reopen ro => exact absurd (by simp only [stepSpecApi, lineOk, ApiOp.okWord]; decide) h
+
+/-- **errors change nothing**: a put, delete, metadata set (or any other call) whose result line does
+    not report `ok` — unknown database, empty key, read-only store, key of the wrong size or out of
+    range, key exists, increment not applicable, handler refused, key not found, flags mismatch —
+    leaves the contents of EVERY database (records, metadata, flags) exactly as they were -/
+theorem api_error_preserves_contents (s : Store) (inv : StoreInv s) (op : ApiOp)
+    (h : ¬ lineOk op (stepApi s op).2) : absStore (stepApi s op).1 = absStore s := by
+  have r := api_step_refines s inv op
+  rw [r.2.1]
+  exact spec_error_preserves _ op (by rw [← r.1]; exact h)
+
+/-- on the reference: a call addressing database `i` leaves the entry of any other database alone -/
+theorem spec_db_frame (t : SpecStore) (op : ApiOp) (i j : Nat) (hop : op.db = some i) (hne : i ≠ j) :
+    sgetDb (stepSpecApi t op).1 j = sgetDb t j := by
+  have hji : j ≠ i := Ne.symm hne
+  cases op with
+  | put id key comp val fl lvl ph =>
+    cases hop
+    simp only [stepSpecApi, sput]
+    rcases sputR_cases t i key comp val fl ph with h1 | ⟨d, h1, _⟩
+    · rw [h1.1]
+    · rw [h1, sgetDb_ssetDb_ne t i j d hji]
+  | get id key comp => rfl
+  | getCopy id key comp bufsz => rfl
+  | del id key comp =>
+    cases hop
+    rcases sdel_cases t i key comp with h1 | ⟨d, h1, _⟩
+    · simp only [stepSpecApi]; rw [h1]
+    · simp only [stepSpecApi]; rw [h1, sgetDb_ssetDb_ne t i j d hji]
+  | metaSet id m =>
+    cases hop
+    rcases smetaSet_cases t i m with h1 | ⟨d, h1, _⟩
+    · simp only [stepSpecApi]; rw [h1]
+    · simp only [stepSpecApi]; rw [h1, sgetDb_ssetDb_ne t i j d hji]
+  | metaGet id bufsz known => rfl
+  | openDb id flags =>
+    cases hop
+    rcases sopenDb_cases t i flags with h1 | ⟨h1, _⟩
+    · simp only [stepSpecApi]; rw [h1]
+    · simp only [stepSpecApi]; rw [h1, sgetDb_append_ne t i j _ hji]
+  | destroyDb id =>
+    cases hop
+    rcases sdestroyDb_cases t i with h1 | ⟨h1, _⟩
+    · simp only [stepSpecApi]; rw [h1]
+    · simp only [stepSpecApi]; rw [h1, sgetDb_filter_ne t i j hji]
+  | reopen ro => rfl
+
+/-- **databases are independent**: whatever a call on database `i` does (store, replace, increment,
+    delete, set metadata, create, destroy), database `j ≠ i` keeps its flags, metadata and records -/
+theorem api_db_frame (s : Store) (inv : StoreInv s) (op : ApiOp) (i j : Nat) (hop : op.db = some i) (hne : i ≠ j) :
+    sgetDb (absStore (stepApi s op).1) j = sgetDb (absStore s) j := by
+  rw [(api_step_refines s inv op).2.1]
+  exact spec_db_frame _ op i j hop hne
+
+/-! #### a concrete history: two databases of different modes -/
+
+/-- database 1: byte-string keys; database 2: integer keys with compound part. A put, a no-overwrite
+    put on the same key (refused), an increment of a 4-byte counter by -2, a refusing handler on an
+    existing key, a 4-byte integer key, a put into a database that does not exist, a get from each,
+    metadata, a delete, a read-only re-open and a refused put. -/
+def exApiOps : List ApiOp :=
+  [.openDb 1 0, .openDb 2 (vnumFlags true),
+   .put 1 [7] 0 [5, 0, 0, 0] 0 3 0,
+   .put 1 [7] 0 [9] Gen.IWKV_NO_OVERWRITE 0 0,
+   .put 1 [7] 0 [254, 255, 255, 255] Gen.IWKV_VAL_INCREMENT 1 1,
+   .put 1 [7] 0 [1] 0 0 2,
+   .put 2 [44, 1, 0, 0] 9 [1, 2] 0 2 0,
+   .put 3 [1] 0 [1] 0 0 0,
+   .get 1 [7] 0, .getCopy 2 [44, 1, 0, 0, 0, 0, 0, 0] 9 1,
+   .metaSet 2 [6, 6], .metaGet 2 10 2,
+   .del 1 [8] 0, .del 1 [7] 0,
+   .reopen true, .put 2 [1, 0, 0, 0] 0 [3] 0 0 0]
+
+example : (runSpecApi SpecStore.empty exApiOps).2 =
+    ["db ok", "db ok", "put ok", "put exists", "put ok ph=old:05000000", "put fail ph=old:03000000",
+     "put ok", "put invalid_args", "get ok 03000000", "getc ok 2 01", "mset ok", "mget ok 1 0606",
+     "del notfound", "del ok", "open ok", "put readonly"] := by decide +kernel
+
+/-- … and therefore so does the node-level model, and it ends with the reference's contents -/
+example : (runApi Store.empty exApiOps).2 =
+    ["db ok", "db ok", "put ok", "put exists", "put ok ph=old:05000000", "put fail ph=old:03000000",
+     "put ok", "put invalid_args", "get ok 03000000", "getc ok 2 01", "mset ok", "mget ok 1 0606",
+     "del notfound", "del ok", "open ok", "put readonly"] ∧
+    absStore (runApi Store.empty exApiOps).1 =
+      ⟨[(1, ⟨0, [], []⟩), (2, ⟨vnumFlags true, [6, 6], [((Vnum.enc 300, 9), [1, 2])]⟩)], true⟩ := by
+  rw [(api_history_refines exApiOps).1, (api_history_refines exApiOps).2]
+  decide +kernel
+
+/-- the store after the first three calls of that history satisfies the invariant … -/
+theorem exApi_inv : StoreInv (runApi Store.empty (exApiOps.take 3)).1 :=
+  (api_history_refines_from _ Store.empty storeInv_empty).2.2
+
+/-- … so the refused no-overwrite put (4th call) and the refused handler put provably leave every
+    database as it was (`api_error_preserves_contents`; the hypothesis is the printed line) -/
+example :
+    absStore (stepApi (runApi Store.empty (exApiOps.take 3)).1 (.put 1 [7] 0 [9] Gen.IWKV_NO_OVERWRITE 0 0)).1
+      = absStore (runApi Store.empty (exApiOps.take 3)).1 ∧
+    absStore (stepApi (runApi Store.empty (exApiOps.take 3)).1 (.put 1 [7] 0 [1] 0 0 2)).1
+      = absStore (runApi Store.empty (exApiOps.take 3)).1 := by
+  refine ⟨api_error_preserves_contents _ exApi_inv _ ?_, api_error_preserves_contents _ exApi_inv _ ?_⟩
+  · rw [(api_step_refines _ exApi_inv _).1, (api_history_refines (exApiOps.take 3)).2]
+    simp only [lineOk, ApiOp.okWord]; decide +kernel
+  · rw [(api_step_refines _ exApi_inv _).1, (api_history_refines (exApiOps.take 3)).2]
+    simp only [lineOk, ApiOp.okWord]; decide +kernel
+
+/-- … and the increment on database 1 leaves database 2 alone (`api_db_frame`) -/
+example :
+    sgetDb (absStore (stepApi (runApi Store.empty (exApiOps.take 3)).1
+      (.put 1 [7] 0 [254, 255, 255, 255] Gen.IWKV_VAL_INCREMENT 1 1)).1) 2
+      = sgetDb (absStore (runApi Store.empty (exApiOps.take 3)).1) 2 :=
+  api_db_frame _ exApi_inv _ 1 2 rfl (by decide)
 
 end Api
 
